@@ -55,8 +55,8 @@ Definition in_window (W E d : Z) : bool := ((W <=? d) && (d <=? E))%Z.
    period starts) *)
 Definition bookings_in (dl : list directive) (a : account) (c : commodity) (W E : Z) : Z :=
   Z.of_nat (length (filter (fun dp : Z * posting => in_window W E (fst dp) && cellb a c (snd dp)) (flat_postings dl))).
-Definition dates_in (dl : list directive) (W E : Z) : Z :=
+Definition days_in (dl : list directive) (W E : Z) : Z :=
   Z.of_nat (length (filter (in_window W E) (WellformedSpec.dates dl))).
 Definition cell_steps (cfg : balance_cfg) (dl : list directive) (part : partition) (a : account) (c : commodity) (E : Z) : Z :=
-  (bookings_in dl a c (p_start (span part)) E + dates_in dl (p_start (span part)) E
+  (bookings_in dl a c (p_start (span part)) E + days_in dl (p_start (span part)) E
    + (if bc_close cfg then Z.of_nat (length (periods part)) else 0))%Z.
